@@ -570,7 +570,7 @@ impl Scenario for VaultScen {
         }
         let mut fault = Fault::None;
         if self.cfg.faults && rng.chance(1, 8) {
-            fault = if rng.chance(2, 3) { Fault::SubCall(rng.range(2, 9) as u32) } else { Fault::Bank(rng.range(1, 3) as u32) };
+            fault = match rng.below(6) { 0..=2 => Fault::SubCall(rng.range(2, 9) as u32), 3 | 4 => Fault::Bank(rng.range(1, 3) as u32), _ => Fault::Query(rng.range(1, 4) as u32) };
         }
         let kind = rng.weighted(&self.cfg.weights);
         let op = match kind {
